@@ -140,7 +140,7 @@ func runC20(c *sim.Ctx, real bool) {
 	nb := c.Weighted(1, 3, 3, 2, 1)
 	if real {
 		nb = 0
-		cfg.plan = tcpsim.Generate(c, tcpsim.GenCfg{MaxConns: 1, AllowRST: true, AllowNoEnd: true, Short: true})
+		cfg.plan = tcpsim.Generate(c, tcpsim.GenCfg{MaxConns: 1, AllowRST: true, AllowNoEnd: true, Short: true, SynData: true})
 	}
 	cfg.script = drawScript(c, nb, 0)
 	cfg.closeAfter = -1
